@@ -205,28 +205,21 @@ func dvalSerialise(in *dvalInput) []byte {
 	return b
 }
 
-// dvalRunBatch runs every input in child processes and returns one outcome per input.
-func dvalRunBatch(ins []*dvalInput) []dvalOutcome {
-	outs := make([]dvalOutcome, len(ins))
-	raws := make([][]byte, len(ins))
-	for i, in := range ins {
-		raws[i] = dvalSerialise(in)
-	}
-	start := 0
-	for start < len(ins) {
-		done, abnormal, stderr := dvalRunChild(ins[start:], raws[start:], outs[start:])
-		start += done
-		if start < len(ins) && abnormal != "" {
-			outs[start] = dvalOutcome{abnormal, stderr}
-			start++
-		}
-	}
-	return outs
+// A persistent child: it is restarted only after it died (os.Exit, fatal error) or hung.
+type dvalChildProc struct {
+	cmd   *exec.Cmd
+	stdin io.WriteCloser
+	lines chan dvalLine
+	errb  *strings.Builder
+}
+type dvalLine struct {
+	s   string
+	eof bool
 }
 
-// dvalRunChild feeds the inputs to one child; returns how many completed and, if the child
-// stopped early, how ("exit" or "hang") together with the tail of its stderr.
-func dvalRunChild(ins []*dvalInput, raws [][]byte, outs []dvalOutcome) (int, string, string) {
+var dvalChild *dvalChildProc
+
+func dvalStartChild() *dvalChildProc {
 	exe, err := os.Executable()
 	if err != nil {
 		panic(err)
@@ -235,13 +228,67 @@ func dvalRunChild(ins []*dvalInput, raws [][]byte, outs []dvalOutcome) (int, str
 	cmd.Env = append(os.Environ(), "VERIF_DVAL_CHILD=1")
 	stdin, _ := cmd.StdinPipe()
 	stdout, _ := cmd.StdoutPipe()
-	var errb strings.Builder
-	cmd.Stderr = &errb
+	errb := &strings.Builder{}
+	cmd.Stderr = errb
 	if err := cmd.Start(); err != nil {
 		panic(err)
 	}
+	p := &dvalChildProc{cmd: cmd, stdin: stdin, lines: make(chan dvalLine, 4096), errb: errb}
 	go func() {
-		w := bufio.NewWriterSize(stdin, 1<<20)
+		sc := bufio.NewScanner(stdout)
+		sc.Buffer(make([]byte, 1<<16), 1<<28)
+		for sc.Scan() {
+			p.lines <- dvalLine{s: sc.Text()}
+		}
+		p.lines <- dvalLine{eof: true}
+	}()
+	return p
+}
+
+func (p *dvalChildProc) stop() {
+	p.stdin.Close()
+	p.cmd.Process.Kill()
+	p.cmd.Wait()
+}
+
+// dvalStopChild is called at the end of the family run.
+func dvalStopChild() {
+	if dvalChild != nil {
+		dvalChild.stop()
+		dvalChild = nil
+	}
+}
+
+// dvalRunBatch runs every input in the child process and returns one outcome per input.
+func dvalRunBatch(ins []*dvalInput) []dvalOutcome {
+	outs := make([]dvalOutcome, len(ins))
+	raws := make([][]byte, len(ins))
+	for i, in := range ins {
+		raws[i] = dvalSerialise(in)
+	}
+	start := 0
+	for start < len(ins) {
+		if dvalChild == nil {
+			dvalChild = dvalStartChild()
+		}
+		done, abnormal, stderr := dvalChild.run(ins[start:], raws[start:], outs[start:])
+		start += done
+		if abnormal != "" {
+			dvalChild = nil
+			if start < len(ins) {
+				outs[start] = dvalOutcome{abnormal, stderr}
+				start++
+			}
+		}
+	}
+	return outs
+}
+
+// run feeds the inputs to the child; returns how many completed and, if the child stopped
+// early, how ("exit" or "hang") together with the head of its stderr.
+func (p *dvalChildProc) run(ins []*dvalInput, raws [][]byte, outs []dvalOutcome) (int, string, string) {
+	go func() {
+		w := bufio.NewWriterSize(p.stdin, 1<<16)
 		for i := range ins {
 			var hdr [5]byte
 			binary.LittleEndian.PutUint32(hdr[:4], uint32(len(raws[i])))
@@ -250,33 +297,16 @@ func dvalRunChild(ins []*dvalInput, raws [][]byte, outs []dvalOutcome) (int, str
 			w.Write(raws[i])
 		}
 		w.Flush()
-		stdin.Close()
-	}()
-	type line struct {
-		s   string
-		eof bool
-	}
-	lines := make(chan line, 1024)
-	go func() {
-		sc := bufio.NewScanner(stdout)
-		sc.Buffer(make([]byte, 1<<20), 1<<28)
-		for sc.Scan() {
-			lines <- line{s: sc.Text()}
-		}
-		lines <- line{eof: true}
 	}()
 	done := 0
-	timeout := time.NewTimer(60 * time.Second)
+	timeout := time.NewTimer(120 * time.Second)
 	defer timeout.Stop()
-	for {
+	for done < len(ins) {
 		select {
-		case l := <-lines:
+		case l := <-p.lines:
 			if l.eof {
-				cmd.Wait()
-				if done < len(ins) {
-					return done, "exit", dvalTail(errb.String())
-				}
-				return done, "", ""
+				p.cmd.Wait()
+				return done, "exit", dvalTail(p.errb.String())
 			}
 			if strings.HasPrefix(l.s, "R ") {
 				parts := strings.SplitN(l.s, " ", 4)
@@ -290,15 +320,15 @@ func dvalRunChild(ins []*dvalInput, raws [][]byte, outs []dvalOutcome) (int, str
 						default:
 						}
 					}
-					timeout.Reset(60 * time.Second)
+					timeout.Reset(120 * time.Second)
 				}
 			}
 		case <-timeout.C:
-			cmd.Process.Kill()
-			cmd.Wait()
-			return done, "hang", dvalTail(errb.String())
+			p.stop()
+			return done, "hang", dvalTail(p.errb.String())
 		}
 	}
+	return done, "", ""
 }
 
 func dvalTail(s string) string {
